@@ -254,6 +254,11 @@ func decoderBoundaryRefs() []string {
 		"&#x8000000000000041", "&#xF000000000000000x", "&#x000006A;", "&#x0000006A;", "&#x00000006A", "&#00000106;", "&#000000106;", "&#0000000106"} {
 		bnd = append(bnd, s)
 	}
+	// spellings that the general number parsers of the standard library accept (sign, base prefix, digit
+	// separator, exponent, blanks, non-ASCII digits) and the reference decoder does not
+	for _, d := range []string{"+106", "-106", "1_06", "0x6a", "0X6A", "0b1101010", "0o152", "0152", "1e2", "106.0", " 106", "106 ", "\t106", "\uff11\uff10\uff16", "\u0661\u0660\u0666", "1\uff10\uff16", "+0", "-0", "--106", "x6a", "x+6a", "x-6a", "x6_a", "x0x6a", "x 6a", "x6a ", "x\uff16a", "x6\uff41", "X6A.0", "xx6a"} {
+		bnd = append(bnd, "&#"+d+";", "&#"+d, "&#"+d+";avascript:x", "j&#"+d+";")
+	}
 	return bnd
 }
 
